@@ -1815,6 +1815,10 @@ class Data(BaseCartesianData):
                         # then also take into account the subarray slices in this
                         # case.
                         mask = mask[subarray_slices]
+                    else:
+                        # The data and mask were not restricted to the subarray
+                        # so the result does not need to be padded below
+                        subarray_slices = None
 
                     data = self.get_data(cid, view)
 
@@ -1869,13 +1873,23 @@ class Data(BaseCartesianData):
             # only the result within the view is returned.
             if not isinstance(axis, tuple):
                 axis = (axis,)
-            result_slices = tuple([subarray_slices[idim] for idim in range(self.ndim) if idim not in axis])
+
+            # Note that the mask (and hence subarray_slices) can have fewer
+            # dimensions than the data if the view contains integers, and that
+            # axis refers to the dimensions of the viewed array.
+            mask_ndim = len(subarray_slices)
+
+            result_slices = tuple([subarray_slices[idim] for idim in range(mask_ndim) if idim not in axis])
+
+            if len(result_slices) == 0:
+                # All dimensions were collapsed so there is nothing to pad
+                return result
 
             if chunk_view is None:
-                full_shape = [self.shape[idim] for idim in range(self.ndim) if idim not in axis]
+                full_shape = [self.shape[idim] for idim in range(mask_ndim) if idim not in axis]
             else:
                 chunk_shape = subset_state.to_mask(self, chunk_view).shape
-                full_shape = [chunk_shape[idim] for idim in range(self.ndim) if idim not in axis]
+                full_shape = [chunk_shape[idim] for idim in range(mask_ndim) if idim not in axis]
 
             full_result = np.zeros(full_shape) * np.nan
             full_result[result_slices] = result
